@@ -298,17 +298,25 @@ func runC10(w *vx.W) {
 	}
 }
 
-func replayC10(raw json.RawMessage) (string, error) {
+// mixChainReplay: shared by the properties that run the chain family.
+func mixChainReplay(raw json.RawMessage) (string, bool, error) {
 	var mr c10MixReplay
-	if json.Unmarshal(raw, &mr) == nil && mr.MixChain {
-		var members [][]byte
-		for _, h := range mr.Members {
-			members = append(members, vx.UnHex(h))
-		}
-		if msg := c10MixChainCheck(members); msg != "" {
-			return "", fmt.Errorf("%s: %s", strings.Join(mr.Words, " + "), msg)
-		}
-		return "ok", nil
+	if json.Unmarshal(raw, &mr) != nil || !mr.MixChain {
+		return "", false, nil
+	}
+	var members [][]byte
+	for _, h := range mr.Members {
+		members = append(members, vx.UnHex(h))
+	}
+	if msg := c10MixChainCheck(members); msg != "" {
+		return "", true, fmt.Errorf("%s: %s", strings.Join(mr.Words, " + "), msg)
+	}
+	return "ok", true, nil
+}
+
+func replayC10(raw json.RawMessage) (string, error) {
+	if s, ok, err := mixChainReplay(raw); ok {
+		return s, err
 	}
 	var r c10Replay
 	if err := json.Unmarshal(raw, &r); err != nil {
@@ -376,6 +384,15 @@ func c10MixChainCheck(members [][]byte) string {
 	for i := range members {
 		if d := refCompare(res.Files[i], refs[i]); d != "" {
 			return fmt.Sprintf("member %d: %s", i, d)
+		}
+		// also where the reference decoder demands nothing (a compressed-timestamp record before any reference):
+		// the member must come out exactly as when it is decoded alone
+		alone := safeDecode(bytes.NewReader(members[i]))
+		if alone.Err != nil || alone.Panic != "" {
+			return fmt.Sprintf("member %d alone: err=%v panic=%q", i, alone.Err, alone.Panic)
+		}
+		if a, c := dumpFileContent(alone.File), dumpFileContent(res.Files[i]); a != c {
+			return fmt.Sprintf("member %d differs from the same file decoded alone: chained %s, alone %s", i, trunc(c, 300), trunc(a, 300))
 		}
 	}
 	rd := &countingReader{b: data}
